@@ -20,6 +20,13 @@ Theorem parse_directive_fields : forall s c args,
 Proof. exact parse_directive_spec. Qed.
 Print Assumptions parse_directive_fields.
 
+(* a directive "has a reason" iff the comment text after the name list contains a character other than a space *)
+Theorem has_reason_iff_text : forall s c args,
+  parse_directive s = Some (c, args) ->
+  (has_reason args = true <-> exists names rest, args = names :: rest /\ all_space (join space rest) = false).
+Proof. exact has_reason_text. Qed.
+Print Assumptions has_reason_iff_text.
+
 (* ignored_iff: the i-th input diagnostic comes out at index i, identical up to its severity, and its severity is
    "ignored" iff it already was or some directive WITH A REASON, attached to a node in the same file (and on the same
    line for //lint:ignore), has a name that glob-matches the diagnostic's check case-insensitively. *)
